@@ -488,6 +488,7 @@ func (fv *FV) readsCell(name string, cx *Cx) string {
 			if st, ok := obj.Type().Underlying().(*types.Struct); ok {
 				for i := 0; i < st.NumFields(); i++ {
 					if st.Field(i).Name() == name[k+1:] {
+						fv.cellType["H!"+name] = st.Field(i).Type()
 						return fv.get(cx.st, "H!"+name, arr(SInt, fv.u.sortOf(st.Field(i).Type())))
 					}
 				}
